@@ -510,10 +510,26 @@ def gitems(items):
     return glist([gpair(gstr(k), pv.to_pyval(v)) for k, v in items])
 
 
-def gnames(o):
+class Names(object):
+    """The stored names of a case are listed again after every call: each distinct text is bound once per case
+    (`let n3 := U "..." in`) and referred to by name (parsing string literals dominates the elaboration of a shard)."""
+    def __init__(self):
+        self.names = {}
+
+    def __call__(self, text):
+        if text not in self.names:
+            self.names[text] = "n%d" % len(self.names)
+        return self.names[text]
+
+    def wrap(self, term):
+        lets = "".join("let %s := %s in " % (n, gstr(k)) for k, n in self.names.items())
+        return "(%s%s)" % (lets, term) if lets else term
+
+
+def gnames(o, nm=gstr):
     if "names_n" in o:
         return "(NCount %d%%N)" % o["names_n"]
-    return "(NAll %s)" % glist([gstr(x) for x in o["names"]])
+    return "(NAll %s)" % glist([nm(x) for x in o["names"]])
 
 
 def to_gallina(case, obs):
@@ -525,6 +541,7 @@ def to_gallina(case, obs):
         return None                       # (the longest histories of the quick tier: implementation + direct predicate only)
     kind = {"mem": "KMem", "file": "KFile", "s3": "(KS3 %s)" % gstr(case.get("prefix", ""))}[case["kind"]]
     terms = []
+    nm = Names()
     for n, op, o, slots, expected in walk(case, obs):
         k = op["op"]
         res = o["res"]
@@ -562,8 +579,8 @@ def to_gallina(case, obs):
                 if not coq_ok(o["val"]):
                     return None
                 ob = "(BVal %s)" % pv.to_pyval(o["val"])
-        terms.append("(%s, %s, %s)" % (t, ob, gnames(o)))
-    return "Case %s %s" % (kind, glist(terms))
+        terms.append("(%s, %s, %s)" % (t, ob, gnames(o, nm)))
+    return nm.wrap("Case %s %s" % (kind, glist(terms)))
 
 
 def explain(case, obs):
